@@ -28,6 +28,17 @@ Correspondence (model ≈ code):
       (harness/c07_app.py): callbacks and async iteration, consumers that are busy or start late,
       transport failure of the initial request, cancels from inside callback / errback,
       response.cancel().
+Round 4 dimensions, at every level that runs the real code concerned: the request's transport tuning as applications
+pass it (none, an instance, the CLASSES aiocoap.Reliable / aiocoap.Unreliable, an own subclass as a class, a tuning
+of other constants, tunings that set OBSERVATION_RESET_TIME themselves) x reordered / duplicated / renumbered
+notifications on a clock [(a) (b) (c) (d)]; further requests of the application outstanding -- to the observation's
+peer or another one, registered before or after the observing request -- when the transport reports a failure for
+either peer, a confirmable request runs out of retransmissions, or a request is reset [(b) (c) (d)]; the
+application cancelling the observation itself before the first response, while the body of the first response is
+fetched, the moment `await request.response` returns, or later, with the server notifying on -- and late
+notifications after every kind of end: the token manager must not know the token any more [(c) (d): the return
+value of TokenManager.process_response, which is what makes a message layer acknowledge or reject; (b): RST on
+the wire].
 Oracle: RFC 7641 §3.4 / §4.2 and the termination clauses written from the RFC / the property over
 the observed deliveries (c07_pipe.oracle_history / oracle_iterator, c07_stack.oracle_stack,
 c07_iter.oracle_iter, c07_app.oracle_app, c07_bw.oracle).  A notification is a 2.xx response
@@ -69,7 +80,17 @@ RULE = ("(a) exhaustive: every sequence (with repetitions) of 5-6 notifications 
         "notifications overtaking a fetch, state changes whose notification is lost, older notifications arriving "
         "late; then random server scripts. (c) application-level scenarios through Context.request() (default "
         "BlockwiseRequest and handle_blockwise=False). A case is non-trivial when at least one notification was "
-        "handed over and one was suppressed or the observation ended (level d: and a fetch failed or the loop ended).")
+        "handed over and one was suppressed or the observation ended (level d: and a fetch failed or the loop ended). "
+        "Round 4, enumerated in full: (a) ten transport tunings (none / instance / classes Reliable, Unreliable / own "
+        "subclass as class / other constants tuned / OBSERVATION_RESET_TIME set, as instance and as class) x value pairs "
+        "around 0, +-1, +-2^23 x gaps {0, 1, R'-1, R', R'+1} around the reset time R' that applies (and around 128 s where "
+        "it differs) x terminators x consumers; (b) the same tunings passed through the UDP stack x CON/NON; an "
+        "established observation + 1-2 further requests (same / other peer; observation oldest or newest entry; CON "
+        "acknowledged or NON) x {network error for either peer, retransmissions exhausted, Reset of the other request, "
+        "network error before the first response}; (c) twelve placements of other requests x ten arrival scripts x "
+        "both APIs x four consumers, application cancels at three positions x gaps, late arrivals after every end; "
+        "(d) application cancels at six positions x two first-body shapes x three tails, other requests x five failures, "
+        "tunings.")
 TRUSTED = ["harness clock standing in for `time` inside aiocoap.protocol; wrapper on the "
            "instance's _stop_interest (harness/c07_pipe.py)",
            "read-only peeks at _Iterator._future / _deferred_error and Task._fut_waiter for the state part of "
@@ -77,14 +98,26 @@ TRUSTED = ["harness clock standing in for `time` inside aiocoap.protocol; wrappe
            "level (d): for the time of one run, a wrapper on the class attribute BlockwiseRequest._complete_by_requesting_block2 "
            "(records which item the loop fetches and the outcome, calls the original), a wrapper on the Context instance's "
            "request() and an extra errback on the lower request's observation (harness/c07_bw.py)",
-           "virtual-clock event loop and fake-socket UDP stack of the harness (vloop.py, netsim.py)"]
+           "virtual-clock event loop and fake-socket UDP stack of the harness (vloop.py, netsim.py)",
+           "level (b), scripts with `tuning0`: for the time of the shared runner's do_S call the harness's view of "
+           "`aiocoap.Message` is a wrapper that hands the tuning on as a class / subclass (harness/c07_stack.py); levels "
+           "(c)/(d): harness clock standing in for `time` inside aiocoap.protocol (level c), the return value of "
+           "TokenManager.process_response as the observable for 'rejected like an unknown response', the public "
+           "attribute ClientObservation.cancelled of the lower request's observation (level d, `?L`)"]
 ASSUMPTIONS = ["asyncio semantics the iterator model relies on (await on a done future does not suspend; "
                "Task.cancel() cancels the awaited future if pending, else throws at the wake-up) are "
                "exercised by the level (i) correspondence, not proved",
                "level (d): the Block2 fetch itself (_complete_by_requesting_block2) is C05's; here only its outcome per "
                "notification enters the model; a complete response without Block2 to a follow-up block request (4.04, bare "
                "2.05) is handed over as such and does not end the observation (stated allowance of the oracle)",
-               "time.time() does not go backwards by more than the model's Nat ticks can express (harness clock is monotone)"]
+               "time.time() does not go backwards by more than the model's Nat ticks can express (harness clock is monotone)",
+               "the 128 s of the property are the RFC's; a request whose tuning itself sets OBSERVATION_RESET_TIME is "
+               "judged by that value (the application's own choice), a tuning of any other constant is judged by 128 s",
+               "when the application cancels the observation itself, the client notices at the next notification (it has no "
+               "other occasion; with the default API after its tasks ran): ONE more notification may still be taken by "
+               "the token manager, every later one must be rejected (stated allowance, both APIs)",
+               "asyncio: a task cancelled before its first step executes none of its code (Upper.Start.cancelledEarly), "
+               "exercised by the level (d) correspondence, not proved"]
 
 M23, M24 = 1 << 23, 1 << 24
 
